@@ -134,6 +134,20 @@ macro_rules! fp_suite {
                         out.call("f.inv", json!({"F": $fstr, "a": b(&sa)}), || outs! {"out" => opt_bytes(fa.inverse().map(|x| x.to_slice()))});
                     }
                 }
+                // exponents (and bases) whose CANONICAL limbs come from {0, 1, 2^63, 2^64-1, p_i, p_i +- 1}: one in six, rotating with the seed
+                {
+                    let mut m = (-<$t>::one()).to_slice().to_vec();
+                    for i in (0..32).rev() { m[i] = m[i].wrapping_add(1); if m[i] != 0 { break; } }
+                    let base = mk(&pool.vals[7 % pool.vals.len()]);
+                    let sb = base.to_slice();
+                    for (i, v) in crate::reps::canon_patterns(&m).iter().enumerate() {
+                        if (i as u64 + a.seed) % (if a.tier == "thorough" { 1 } else { 6 }) != 0 { continue; }
+                        let fe = mk(&v[..]);
+                        let se = fe.to_slice();
+                        out.call("f.pow", json!({"F": $fstr, "a": b(&sb), "e": b(&se)}), || outs! {"out" => b(&base.pow(fe).to_slice())});
+                        out.call("f.neg", json!({"F": $fstr, "form": "v", "a": b(&se)}), || outs! {"out" => b(&(-fe).to_slice())});
+                    }
+                }
                 // exponents whose Montgomery representation is a tiny integer / single limb
                 for (i, v) in pool.lo.iter().enumerate() {
                     let fe = mk(v);
